@@ -6,14 +6,16 @@
    methods that decide what goes through the indenting writer and what bypasses it).  Both are tied to js/ast.go and
    util.go by correspondence runs; the parser is the model of C03 ([parse]). *)
 From Verif Require Import Common.Base Gen.PrattTable JsExpr.Syntax JsExpr.Pratt JsExpr.Spec JsExpr.Grammar
-  JsPrint.Print JsPrint.Proofs JsPrint.Glue JsPrint.Indent JsPrint.IndentProofs.
+  JsPrint.Print JsPrint.Proofs JsPrint.Glue JsPrint.Indent JsPrint.IndentProofs JsPrint.LexBack.
+From Verif Require Common.Lx JsLex.Model JsLex.Proofs.
 
 (* Print the tree of any accepted token list and read the written tokens again ([ptoks]: the items without the
    spaces): they are accepted, the tree is the original one with a GroupExpr around each numeric literal that stands
    before '.' ([ng]) — the same tree modulo GroupExpr nodes — and printing that tree gives the same bytes.
-   Partial: the tokens are the ones the printer writes; that its bytes lex back to exactly these tokens (the
-   `+ +a` spacing, `(1).a`) is not proved here — the lexer is C06's model — but checked by the round-trip oracle and
-   the byte-for-byte correspondence of [print_js] with JS(). *)
+   Partial: this is the parser half — the tokens are the ones the printer writes; that the written BYTES lex back to
+   exactly these tokens is print_lex_parse_partial below (through the C06 lexer model, for the outputs its
+   token-sequence theorem covers), and is checked for everything by the round-trip oracle and the byte-for-byte
+   correspondence of [print_js] with JS(). *)
 Theorem print_retokenises_partial :
   forall inf ts t, parse inf prec_OpExpr ts = Ok (t, []) ->
     parse inf prec_OpExpr (ptoks (pitems t)) = Ok (ng t, []) /\
@@ -21,6 +23,41 @@ Theorem print_retokenises_partial :
     print_js (ng t) = print_js t.
 Proof. exact print_reparses_proof. Qed.
 Print Assumptions print_retokenises_partial.
+
+(* The full round trip of the fragment, through the JS lexer model of C06 (JsLex/Model.v; jrun: a sequence of Next calls):
+   print the tree of any accepted token list, run the lexer on the BYTES with one Next call per written item; it returns
+   exactly the written items as tokens ([tok_of_item]: the printer's tokens and one WhitespaceToken per space) and stops
+   at the end of the input; what the parser sees of them ([lexed_view]: whitespace dropped, no line terminators) is
+   accepted again, with the original tree modulo GroupExpr, and that tree prints to the same bytes.
+   Built on C06's jslex_token_sequences (JsLex/SeqNext.v).  Hypotheses:
+     leaf_tokens_real: every written token that is not a punctuator / keyword of the fragment with its canonical bytes
+       (identifiers, numeric and string literals, property names) is a token of the lexer — lexed alone it is that token
+       ([relexes]), of class identifier / numeric / string, with no truncated UTF-8 sequence at its end;
+     c06_separated (a computable check of the written item list, byte by byte): every written token is followed by a
+       byte that cannot extend it in the sense of C06's [stop_for].
+   PARTIAL, MISSING — exactly the outputs with c06_separated t = false or leaf_tokens_real false:
+     (1) followers that are safe but for which C06's stop_for has no case (the MISSING list of jslex_token_sequences_partial):
+         a prefix operator directly followed by a digit, '.', '+', '-' or '!' (`-1`, `-.5`, `!-a`, `!!a`, `-++a`; `- -a`,
+         `!~a`, `-a`, `-(1)`, `!'s'` are inside), a binary / octal / hex / BigInt literal directly before '.' (`0x1F.a`;
+         decimal literals get parentheses), a token that starts with a non-ASCII byte directly after a space (`a + é`);
+     (2) a property name that is a reserved word (`a.if`: the printer's token is an IdentifierToken, the lexer returns
+         the keyword type; the parser accepts both) and leaf tokens the lexer does not deliver through Next (a
+         RegExpToken literal).
+   LexBack.v has an instance (print_lex_parse_example) and members of both sides of the check (separated_examples,
+   not_separated_examples). *)
+Theorem print_lex_parse_partial :
+  forall (ids idc zs : Z -> bool) inf ts t,
+    parse inf prec_OpExpr ts = Ok (t, []) -> leaf_tokens_real ids idc zs t -> c06_separated t = true ->
+    exists toks s',
+      JsLex.Proofs.jrun ids idc zs (map (fun _ : pitem => JsLex.Proofs.ONext) (pitems t)) (JsLex.Model.js_init (print_js t))
+        = JsLex.Model.Ok (toks, s') /\
+      Common.Lx.at_end (JsLex.Model.jcur s') = true /\
+      toks = map tok_of_item (pitems t) /\
+      parse inf prec_OpExpr (lexed_view toks) = Ok (ng t, []) /\
+      strip_groups (ng t) = strip_groups t /\
+      print_js (ng t) = print_js t.
+Proof. exact print_lex_parse_proof. Qed.
+Print Assumptions print_lex_parse_partial.
 
 (* The same from the grammar: the tree of every derivation of the standard's productions (JsExpr/Grammar.v, any
    nonterminal of the operator fragment) prints to tokens that are accepted and give that tree back (modulo [ng]). *)
